@@ -53,13 +53,61 @@ def record(case):
         obs_final = observe.observe(w, ref_final, what=crashrun.WHAT)
         bad = observe.compare(obs_final, ref_final, crashrun.WHAT)
         if bad or not w.at_daemon_tip():
-            raise common.Broken(f'uninterrupted run is already wrong (C01/C02 territory): {bad[:1]}')
+            raise UninterruptedWrong(repr(bad[:1])[:300])
+        batch_sizes = dict(m0.stores.batch_sizes)
         log = list(m0.log)
         w.close(destroy=False)
     finally:
         m0.destroy()
     return dict(blocks=blocks, fmap=fmap, params=dict(world=wparams), snapshot=snapshot, log=log,
-                marks=marks, obs_final=obs_final, ref_final=ref_final)
+                marks=marks, obs_final=obs_final, ref_final=ref_final, batch_sizes=batch_sizes)
+
+
+class UninterruptedWrong(Exception):
+    pass
+
+
+def fault_in_batch(case, rec, res):
+    '''An exception in the middle of building a write batch (it propagates, the processing task
+    dies, the process exits): the batch must not have been written in part.  Re-runs the
+    scenario once per batch with the fault injected at its middle operation.'''
+    if case.get('restart_at') or case.get('grow_at'):
+        return
+    blocks = rec['blocks']
+    for number, size in sorted(rec['batch_sizes'].items()):
+        if size < 2:
+            continue
+        m = world.Machine()
+        failures = []
+        try:
+            m.stores.fault = (number, size // 2)
+            w = world.World(m, **rec['params']['world'])
+            w.daemon.set_chain(blocks)
+            w.flush_schedule = dict(rec['fmap'])
+            marks = [(0, -1)]
+            w.on_full_flush = lambda w_: marks.append((len(m.log), w_.db.state.height))
+            w.start_sync()
+            try:
+                w.run_until_caught_up()
+                died = False
+            except (world.SyncFailed, world.Stalled):
+                died = True
+            w.close(destroy=False)
+            if not died:
+                continue                    # the batch was never reached in this run
+            allowed = {-1} | {h for _i, h in marks}
+            crashrun.observe_open(m, blocks, rec['params'], res, failures, 'after-exception-in-batch',
+                                  max(h for _i, h in marks), allowed, ACT)
+            if not failures:
+                crashrun.resume_and_compare(m, blocks, rec['params'], rec['fmap'], rec['obs_final'],
+                                            rec['ref_final'], res, failures, 'after-exception-in-batch')
+            res.count('crash_points')
+            res.count('kind:exception-mid-batch')
+        finally:
+            m.destroy()
+        for field, detail in failures[:1]:
+            res.violation(f'{field}@exception-mid-batch', dict(case, fault_batch=number),
+                          dict(batch=number, ops=size, **detail))
 
 
 def check_point(rec, k, nbytes, res, case, nested=True):
@@ -115,7 +163,12 @@ def _short(eff):
 
 
 def run_case(case, res):
-    rec = record(case)
+    try:
+        rec = record(case)
+    except UninterruptedWrong as e:
+        res.count('scenarios')
+        res.violation('uninterrupted-run-already-wrong', case, dict(mismatch=str(e)))
+        return
     log = rec['log']
     res.count('scenarios')
     res.count('effects', len(log))
@@ -128,6 +181,7 @@ def run_case(case, res):
     res.count('init_effects_skipped', lo)
     for k, nbytes in crashrun.crash_points(log, lo=lo):
         check_point(rec, k, nbytes, res, {x: case[x] for x in case})
+    fault_in_batch(case, rec, res)
     res.sample({'scenario': case, 'effects': len(log),
                 'log_head': [_short(e) for e in log[:12]]}, cap=1)
 
@@ -168,7 +222,7 @@ def cases_for(tier):
     return cases
 
 
-NEED_KINDS = ['kind:before-hist-batch', 'kind:before-utxo-batch', 'kind:before-utxo-put',
+NEED_KINDS = ['kind:exception-mid-batch', 'kind:before-hist-batch', 'kind:before-utxo-batch', 'kind:before-utxo-put',
               'kind:torn-file-write', 'kind:before-file-write', 'kind:before-create',
               'kind:crash-during-recovery', 'kind:after-last-effect']
 
